@@ -25,6 +25,8 @@ pub enum Op {
     CloseWrite,
     /// Drop the read half (the agent's writes fail).
     CloseRead,
+    /// Let this much simulated time pass (the run's clock only moves when every node is idle).
+    Sleep { ms: u64 },
 }
 
 #[derive(Debug, Clone, Serialize, Deserialize, PartialEq, Eq)]
@@ -121,6 +123,9 @@ pub struct AgentScenario {
     /// After the ending, start a new agent instance on the same store and sync every lane.
     pub restart: bool,
     pub max_steps: u64,
+    /// Run the scripted agent of W-FAKEAGENT (value lanes val / tval only) instead of the real agent model.
+    #[serde(default)]
+    pub fake: Option<super::fake::FailPlan>,
 }
 
 pub fn val_lane_item(lane: &str) -> Option<i32> {
@@ -143,6 +148,8 @@ pub fn map_lane_item(lane: &str) -> Option<i32> {
 struct Gen {
     rng: Rng,
     next_val: i32,
+    /// The scripted agent has no control lane: only direct commands.
+    fake: bool,
 }
 
 impl Gen {
@@ -198,6 +205,7 @@ fn mix_for(focus: &str) -> Mix {
         "C04" => Mix { value: 4, map: 4, smap: 1, supply: 2, command: 1, send: 0, stores: 0, link_churn: 6, unknown_lane: 2, disconnect: 2, sync: 4 },
         "C05" => Mix { value: 5, map: 6, smap: 1, supply: 0, command: 0, send: 0, stores: 4, link_churn: 1, unknown_lane: 0, disconnect: 0, sync: 2 },
         "C14" => Mix { value: 2, map: 0, smap: 0, supply: 8, command: 6, send: 6, stores: 0, link_churn: 2, unknown_lane: 0, disconnect: 0, sync: 1 },
+        "C04F" => Mix { value: 8, map: 0, smap: 0, supply: 0, command: 0, send: 0, stores: 0, link_churn: 4, unknown_lane: 1, disconnect: 1, sync: 4 },
         "C20" => Mix { value: 3, map: 3, smap: 0, supply: 2, command: 2, send: 0, stores: 0, link_churn: 8, unknown_lane: 1, disconnect: 3, sync: 2 },
         _ => Mix { value: 4, map: 4, smap: 1, supply: 2, command: 2, send: 1, stores: 1, link_churn: 2, unknown_lane: 1, disconnect: 1, sync: 3 },
     }
@@ -225,7 +233,7 @@ fn gen_read(rng: &mut Rng, slow_bias: bool) -> ReadCfg {
 
 pub fn generate(seed: u64, focus: &str, _tier: Tier) -> AgentScenario {
     let root = Rng::new(seed);
-    let mut g = Gen { rng: root.sub("scenario"), next_val: 1000 };
+    let mut g = Gen { rng: root.sub("scenario"), next_val: 1000, fake: focus == "C04F" };
     let mix = mix_for(focus);
     let small = g.rng.chance(3, 4);
     let buf_choices: &[u32] = if small { &[8, 12, 16, 24, 32, 48, 64, 128] } else { &[256, 4096] };
@@ -249,11 +257,11 @@ pub fn generate(seed: u64, focus: &str, _tier: Tier) -> AgentScenario {
         policy,
         sched_seed: root.sub("sched").next_u64(),
         tokio_seed: root.sub("tokio").next_u64(),
-        persistent: focus == "C05" || g.rng.chance(1, 3),
+        persistent: focus != "C04F" && (focus == "C05" || g.rng.chance(1, 3)),
         target_cap: *g.rng.pick(&[8u32, 16, 32, 64, 4096]),
         target_read: gen_read(&mut g.rng, true),
         link_delay: *g.rng.pick(&[0u32, 0, 3, 20]),
-        reporting: focus == "C20" || g.rng.chance(1, 4),
+        reporting: focus == "C20" || (focus == "C04F" && g.rng.chance(1, 2)) || g.rng.chance(1, 4),
     };
     let n_peers = match focus {
         "C05" => g.rng.range(1, 2),
@@ -335,7 +343,55 @@ pub fn generate(seed: u64, focus: &str, _tier: Tier) -> AgentScenario {
     } else {
         StoreFaultCfg::None
     };
+    let fake = if focus == "C04F" {
+        Some(super::fake::FailPlan {
+            lane: g.rng.pick(&["val", "tval"]).to_string(),
+            after_requests: g.rng.range(0, 25) as u32,
+            mode: if g.rng.chance(1, 2) { super::fake::FailMode::Garbage } else { super::fake::FailMode::DropIo },
+        })
+    } else {
+        None
+    };
+    // Inactivity-vote pattern (C05): the read side is kept busy with commands that produce no lane
+    // events while the write side sits idle past the inactivity time-out, then a persistent lane changes.
+    let mut ending = ending;
+    let mut store_fault = store_fault;
+    if focus == "C05" && g.rng.chance(1, 5) && !peers.is_empty() {
+        let t = knobs.inactive_timeout_ms;
+        // The pattern runs first and must be able to complete: no early crash, no store fault.
+        peers.truncate(2);
+        let mut ops = vec![Op::Link { lane: "val".into() }, Op::Link { lane: "map".into() }, Op::AwaitLinked { lane: "val".into() }];
+        let hops = g.rng.range(3, 5);
+        for _ in 0..hops {
+            // A command for a lane that does not exist keeps the read task busy without producing
+            // any lane event or coordination message (the write task stays idle).
+            let v = g.vals(1);
+            ops.push(Op::Cmd { lane: "nolane".into(), body: v.to_string() });
+            ops.push(Op::Sleep { ms: t / 2 + 1 });
+        }
+        let v = g.vals(1);
+        ops.push(Op::Cmd { lane: "val".into(), body: v.to_string() });
+        ops.push(Op::Barrier);
+        if g.rng.chance(1, 2) {
+            let k = g.rng.range_i(0, 3);
+            let v = g.vals(1);
+            ops.push(Op::Cmd { lane: "map".into(), body: format!("@update(key:{k}) {v}") });
+            ops.push(Op::Barrier);
+        }
+        let rest = std::mem::take(&mut peers[0].ops);
+        ops.extend(rest);
+        peers[0].ops = ops;
+        peers[0].attach_delay = 0;
+        peers[0].read.freeze_after = 0;
+        ending = match g.rng.below(3) {
+            0 => Ending::Stop,
+            1 => Ending::CrashAfterFrame(g.rng.range(4, 12)),
+            _ => Ending::Timeout,
+        };
+        store_fault = StoreFaultCfg::None;
+    }
     AgentScenario {
+        fake,
         focus: focus.to_string(),
         restart: knobs.persistent && (focus == "C05" || g.rng.chance(1, 4)),
         knobs,
@@ -379,7 +435,7 @@ fn gen_op(g: &mut Gen, mix: &Mix, key_pool: i32, ops: &mut Vec<Op>, linked: &mut
     };
     if take(mix.value) {
         let lane = pick_value_lane(&mut g.rng);
-        if g.rng.chance(1, 2) {
+        if g.fake || g.rng.chance(1, 2) {
             let n = *g.rng.pick(&[1i32, 1, 2, 3, 8, 30]);
             for _ in 0..n {
                 let v = g.vals(1);
@@ -478,7 +534,7 @@ fn gen_op(g: &mut Gen, mix: &Mix, key_pool: i32, ops: &mut Vec<Op>, linked: &mut
             _ => ops.push(Op::Cmd { lane: "ctl".into(), body: ctl_recon(&Ctl::Clr { item: 3 }) }),
         }
     } else if take(mix.link_churn) {
-        let lane = g.rng.pick(&["val", "tval", "map", "bmap", "smap", "sup", "cmd"]).to_string();
+        let lane = if mix.map == 0 && mix.supply == 0 && mix.command == 0 { g.rng.pick(&["val", "tval"]).to_string() } else { g.rng.pick(&["val", "tval", "map", "bmap", "smap", "sup", "cmd"]).to_string() };
         match g.rng.below(4) {
             0 | 1 => {
                 ops.push(Op::Link { lane: lane.clone() });
@@ -516,6 +572,8 @@ fn gen_op(g: &mut Gen, mix: &Mix, key_pool: i32, ops: &mut Vec<Op>, linked: &mut
     } else if take(mix.sync) {
         let lane = if !linked.is_empty() && g.rng.chance(2, 3) {
             linked[g.rng.usize_below(linked.len())].clone()
+        } else if mix.map == 0 && mix.supply == 0 && mix.command == 0 {
+            g.rng.pick(&["val", "tval"]).to_string()
         } else {
             g.rng.pick(&["val", "tval", "map", "bmap", "tmap", "smap", "sup"]).to_string()
         };
